@@ -490,9 +490,26 @@ func vfMutate(t *rapid.T, doc vfMap, other vfMap, i int) (desc string) {
 	kind := vfPick(t, l+"kind", []string{
 		"null", "null", "null", "delete", "scalar", "scalar", "swap_container", "swap_container", "nested_null",
 		"nested_null", "empty", "inject", "inject", "extra", "list_elem", "list_elem", "list_elem",
+		"null_section", "null_section",
 	})
 
 	switch kind {
+	case "null_section":
+		// "dns:" with nothing under it: a whole section (object or list) null
+		var secs []vfSlot
+		for _, s := range tops {
+			switch s.get().(type) {
+			case vfMap, vfList:
+				secs = append(secs, s)
+			}
+		}
+		if len(secs) == 0 {
+			break
+		}
+		s := vfPick(t, l+"section", secs)
+		s.set(nil)
+
+		return s.path + ":null"
 	case "list_elem":
 		// an element of a list (clients, filters, upstreams, ignored hosts, ...)
 		// that is null or of another type than its siblings
@@ -573,7 +590,7 @@ func vfMutate(t *rapid.T, doc vfMap, other vfMap, i int) (desc string) {
 	cur := s.get()
 
 	switch kind {
-	case "null", "list_elem":
+	case "null", "list_elem", "null_section":
 		kind = "null"
 		s.set(nil)
 	case "delete":
